@@ -169,9 +169,9 @@ theorem openSession_nc : KeepsNC openSession := by
   unfold openSession
   dsimp only
   -- the intermediate states differ from `s` only in fields `NC` does not look at
-  generalize hs2 : (if ({ s with sessionStarted := true, bind2Bound := false } : St).smResumed = true
-      then ({ s with sessionStarted := true, bind2Bound := false } : St)
-      else { ({ s with sessionStarted := true, bind2Bound := false } : St) with pendingIq := 0 }) = s2
+  generalize hs2 : (if ({ s with sessionStarted := true, bind2Bound := false, canResume := s.smEnabled && s.canResume } : St).smResumed = true
+      then ({ s with sessionStarted := true, bind2Bound := false, canResume := s.smEnabled && s.canResume } : St)
+      else { ({ s with sessionStarted := true, bind2Bound := false, canResume := s.smEnabled && s.canResume } : St) with pendingIq := 0 }) = s2
   have h2 : NC s2 := by
     subst hs2
     split <;> simpa [NC] using h
@@ -796,13 +796,13 @@ theorem csiOnSessionOpened_red (s : St) (b : Bool) (h : s.redirect = false) : (c
 theorem openSession_red (s : St) (h : s.redirect = false) : (openSession s).1.redirect = false := by
   unfold openSession
   dsimp only
-  have h2 : (if ({ s with sessionStarted := true, bind2Bound := false } : St).smResumed = true
-      then ({ s with sessionStarted := true, bind2Bound := false } : St)
-      else { ({ s with sessionStarted := true, bind2Bound := false } : St) with pendingIq := 0 }).redirect = false := by
+  have h2 : (if ({ s with sessionStarted := true, bind2Bound := false, canResume := s.smEnabled && s.canResume } : St).smResumed = true
+      then ({ s with sessionStarted := true, bind2Bound := false, canResume := s.smEnabled && s.canResume } : St)
+      else { ({ s with sessionStarted := true, bind2Bound := false, canResume := s.smEnabled && s.canResume } : St) with pendingIq := 0 }).redirect = false := by
     split <;> exact h
-  generalize (if ({ s with sessionStarted := true, bind2Bound := false } : St).smResumed = true
-      then ({ s with sessionStarted := true, bind2Bound := false } : St)
-      else { ({ s with sessionStarted := true, bind2Bound := false } : St) with pendingIq := 0 }) = s2 at h2
+  generalize (if ({ s with sessionStarted := true, bind2Bound := false, canResume := s.smEnabled && s.canResume } : St).smResumed = true
+      then ({ s with sessionStarted := true, bind2Bound := false, canResume := s.smEnabled && s.canResume } : St)
+      else { ({ s with sessionStarted := true, bind2Bound := false, canResume := s.smEnabled && s.canResume } : St) with pendingIq := 0 }) = s2 at h2
   have h3 := csiOnSessionOpened_red s2 s.bind2Bound h2
   generalize csiOnSessionOpened s2 s.bind2Bound = r3 at h3
   have h4 : (if r3.1.authenticated = true then sendStanza r3.1 (.iqRequest true) else (r3.1, [])).1.redirect = false := by
